@@ -101,8 +101,9 @@ Qed.
 
 Lemma extend_assoc : forall a b c, extend (extend a b) c = extend a (extend b c).
 Proof.
-  intros a b c. unfold extend; cbn [self_layer super_layers]. f_equal.
-  repeat rewrite <- app_assoc. reflexivity.
+  intros a b c. unfold extend; cbn [self_layer super_layers asserts]. f_equal.
+  - repeat rewrite <- app_assoc. reflexivity.
+  - rewrite app_assoc. reflexivity.
 Qed.
 
 Lemma wf_extend : forall a b, wf_obj a -> wf_obj b -> wf_obj (extend a b).
@@ -1001,7 +1002,7 @@ Qed.
 
 (* std.objectRemoveKey(o, n) + { n: ... }: the re-added field stands alone; nothing of
    the removed object's field (in particular not its visibility) shows through *)
-Definition lit (l : layer) : obj := {| self_layer := l; super_layers := [] |}.
+Definition lit (l : layer) : obj := {| self_layer := l; super_layers := []; asserts := [[]] |}.
 
 Lemma chain_remove_then_extend : forall o n l d, layer_get l n = Some (Normal d) ->
   chain (extend (remove_key o n) (lit l)) n = [(0, d)].
@@ -1348,7 +1349,7 @@ Qed.
 (* every literal of the expression has distinct field names (the evaluator rejects others) *)
 Fixpoint wf_oexpr (e : oexpr) : Prop :=
   match e with
-  | OLit l => wf_layer l
+  | OLit l _ => wf_layer l
   | OPlus a b => wf_oexpr a /\ wf_oexpr b
   | OMergePatch a b => wf_oexpr a /\ wf_oexpr b
   | ORemove a _ => wf_oexpr a
@@ -1420,7 +1421,7 @@ Qed.
 
 Theorem build_wf : forall e o, wf_oexpr e -> build e = Ok o -> wf_obj o.
 Proof.
-  induction e as [l|a IHa b IHb|a IHa n|c a IHa|a IHa|a IHa b IHb]; intros o Hwf H; cbn [build wf_oexpr] in *.
+  induction e as [l asr|a IHa b IHb|a IHa n|c a IHa|a IHa|a IHa b IHb]; intros o Hwf H; cbn [build wf_oexpr] in *.
   - injection H as <-. unfold wf_obj, layers. cbn. constructor; [exact Hwf | constructor].
   - destruct Hwf as [Ha Hb].
     destruct (build a) as [x| | |]; cbn [obind] in H; try discriminate.
@@ -1432,12 +1433,15 @@ Proof.
     injection H as <-. unfold map_with_key. apply wf_simple_obj. rewrite map_map. cbn [fst].
     rewrite map_id. apply visible_nodup.
   - destruct (build a) as [x| | |]; cbn [obind] in H; try discriminate.
-    unfold prune in H. destruct (prune_fields x (get_visible_fields_order x)) as [fs| | |] eqn:P; cbn [obind] in H; try discriminate.
+    unfold prune in H. destruct (check_asserts x) as [u1| | |]; cbn [obind] in H; try discriminate H.
+    destruct (prune_fields x (get_visible_fields_order x)) as [fs| | |] eqn:P; cbn [obind] in H; try discriminate.
     injection H as <-. apply wf_simple_obj. apply (prune_fields_keys _ _ _ P). apply visible_nodup.
   - destruct Hwf as [Ha Hb].
     destruct (build a) as [x| | |]; cbn [obind] in H; try discriminate.
     destruct (build b) as [y| | |]; cbn [obind] in H; try discriminate.
     unfold merge_patch in H.
+    destruct (check_asserts x) as [u1| | |]; cbn [obind] in H; try discriminate H.
+    destruct (check_asserts y) as [u2| | |]; cbn [obind] in H; try discriminate H.
     destruct (merge_patch_fields x y (get_visible_fields_order x) (get_visible_fields_order y)) as [fs| | |] eqn:P;
       cbn [obind] in H; try discriminate.
     injection H as <-. apply wf_simple_obj. rewrite map_app, map_map. cbn [fst]. rewrite map_id.
@@ -1540,3 +1544,33 @@ Proof.
   unfold wf_obj, wf_layer. vm_compute.
   repeat constructor; intros H; cbn in H; repeat (destruct H as [H|H]; try discriminate); auto.
 Qed.
+
+(* ------------------------------------------------------------------ asserts *)
+
+(* a + b keeps the asserts of every layer, aligned with the layers *)
+Lemma asserts_extend : forall a b, asserts (extend a b) = asserts b ++ asserts a.
+Proof. reflexivity. Qed.
+
+Lemma asserts_remove_key : forall o n, asserts (remove_key o n) = [] :: asserts o.
+Proof. reflexivity. Qed.
+
+Lemma index_field_unknown : forall o n, has_field o 0 n = Ok false -> index_field o n = Err EUnknownField.
+Proof.
+  intros o n H. unfold has_field in H. unfold index_field.
+  destruct (find_field o 0 n) as [[[j d]|]| | |]; cbn [obind] in *; try discriminate H. reflexivity.
+Qed.
+
+(* {x: 0} + {assert self.x != 0 : "m1"}: a layer without fields that matters *)
+Definition nx : name := [120].
+Definition assert_only : obj :=
+  {| self_layer := []; super_layers := [];
+     asserts := [[{| a_cond := BSelf nx; a_msg := Some 1 |}]] |}.
+Definition zero_x : obj := lit [(nx, mkf Default false (BNum 0))].
+
+Lemma assert_only_layer_matters :
+  layers assert_only = [[]] /\
+  index_field zero_x nx = Ok (VNum 0) /\
+  index_field (extend zero_x assert_only) nx = Err (EAssert (Some 1)) /\
+  manifest_checked (extend zero_x assert_only) = Err (EAssert (Some 1)) /\
+  get_fields_order (extend zero_x assert_only) = get_fields_order zero_x.
+Proof. vm_compute. repeat split. Qed.
